@@ -255,6 +255,43 @@ def breaking_variants(root):
     add(L, 'LRUTrie.dfs_with_webentity_iter', 'R-STACK-BLOCKS', 'no re-read after pop', nth(lambda s: call_stmt(s, 'read', 'node')), 'pass')
     add(T, 'Traph.get_webentity_by_prefix', 'R-OWN-ERROR', 'raises KeyError', nth_expr(lambda n: isinstance(n, ast.Name) and n.id == 'TraphException'), 'KeyError')
     add(T, 'Traph.add_webentity_creation_rule_iter', 'R-RULE-INSTALL', 'anchor not flagged', nth(lambda s: call_stmt(s, 'flag_as_webentity_creation_rule')), 'pass')
+    # rules added after the first seeding rounds
+    add(N, 'LRUTrieNode.read', 'R-READ-RESETS', 'tail not reset on an existing block',
+        nth(lambda s: isinstance(s, ast.Assign) and ast.unparse(s.targets[0]) == 'self.tail' and isinstance(s.value, ast.Constant), 1), 'pass')
+    add(L, 'LRUTrie.windup_lru_for_webentity', 'R-NO-STALE-CACHE', 'resolution memo on the trie object',
+        nth(lambda s: isinstance(s, ast.Return) and s.value is not None and 'parent.webentity' in ast.unparse(s)),
+        lambda n, src: 'self.__dict__.setdefault("x", {}) if False else None; self.memo = getattr(self, "memo", None) or {}; ' + seg(src, n)
+        if False else 'self.memo = {node.block: parent.webentity()}; ' + seg(src, n))
+    add(T, 'Traph.get_webentity_outlinks_iter', 'R-MEMO-KEY', 'memo keyed by the parent block',
+        nth_expr(lambda n: isinstance(n, ast.Compare) and isinstance(n.ops[0], ast.NotIn)), 'target_node.parent() not in done_blocks')
+    add(T, 'Traph.get_webentities_links_slow_iter', 'R-MEMO-KEY', 'memo stores a negative answer',
+        nth(lambda s: isinstance(s, ast.If) and ast.unparse(s.test) == 'not target_webentity'),
+        lambda n, src: 'page_to_webentity[target_block] = target_webentity\n' + ' ' * n.col_offset + seg(src, n))
+    add(T, 'Traph.webentity_page_nodes_iter', 'R-EVERY-PREFIX', 'missing prefix skipped silently',
+        nth(lambda s: isinstance(s, ast.Raise)), 'continue')
+    add(T, 'Traph.move_prefix_to_webentity', 'R-ARGS-HONOURED', 'source webentity ignored',
+        nth_expr(lambda n: isinstance(n, ast.Call) and isinstance(n.func, ast.Attribute) and n.func.attr == 'remove_prefix_from_webentity'),
+        'self.remove_prefix_from_webentity(prefix)')
+    add('traph/storage/file.py', 'FileStorage.write', 'R-STORAGE-IFACE', 'block tested for truthiness',
+        nth_expr(lambda n: isinstance(n, ast.Compare) and ast.unparse(n) == 'block is not None'), 'block')
+    add('traph/storage/file.py', 'FileStorage.check_for_corruption', 'R-STORAGE-IFACE', 'short file accepted',
+        nth(lambda s: isinstance(s, ast.If)), lambda n, src: 'if file_length < self.block_size:\n' + ' ' * (n.col_offset + 4) + 'return False\n' + ' ' * n.col_offset + seg(src, n))
+    add(N, 'LRUTrieNode.read', 'R-STORAGE-IFACE', 'len(storage) inside the tail loop',
+        nth(lambda s: isinstance(s, ast.Assign) and ast.unparse(s.value) == 'self.storage.read()'), lambda n, src: 'end = len(self.storage); ' + seg(src, n))
+    add('traph/storage/memory.py', 'MemoryStorage.clear', 'R-CLEAR-AGREE', 'header kept by clear',
+        nth(lambda s: isinstance(s, ast.Assign)), 'del self.array[self.block_size:]')
+    add(H, 'detailed_chunks_iter', 'R-CHUNK-LAST', 'chunk count len // size + 1',
+        nth(lambda s: isinstance(s, ast.Assign) and 'ceil' in ast.unparse(s.value)), lambda n, src: seg(src, n).split('=')[0] + '= len(string) // chunk_size + 1')
+    add(H, 'detailed_chunks_iter', 'R-CHUNK-LAST', 'is-last from the end offset',
+        nth_expr(lambda n: isinstance(n, ast.Compare) and 'nb_chunks - 1' in ast.unparse(n)), 'start + chunk_size > len(string)')
+    add(L, 'LRUTrie.dfs_iter', 'R-STACK-BLOCKS', 'shared traversal node',
+        nth(lambda s: isinstance(s, ast.Assign) and ast.unparse(s.value) == 'self.node()'), lambda n, src: seg(src, n).split('=')[0] + '= starting_node')
+    add(T, 'Traph.get_webentity_most_linked_pages_iter', 'R-TOPK', 'heapreplace',
+        nth_expr(lambda n: isinstance(n, ast.Attribute) and n.attr == 'heappush'), 'heapq.heapreplace')
+    add(H, 'lru_variations', 'R-VARIATIONS', 'www test not anchored at the last host',
+        nth_expr(lambda n: isinstance(n, ast.Compare) and 'hosts[-1]' in ast.unparse(n)), "b'h:www' in hosts")
+    add(T, 'Traph.index_batch_crawl_iter', 'R-DIRTY-WRITTEN', 'crawled flag left to a conditional writer',
+        nth(lambda s: call_stmt(s, 'write', 'source_node')), 'pass')
     return out
 
 
@@ -328,6 +365,29 @@ class InvertContinue(ast.NodeTransformer):
         return node
 
 
+class SwapBranches(ast.NodeTransformer):
+    """`if A: X else: Y` -> `if not A: Y else: X` (two-armed ifs without elif)"""
+
+    def visit_If(self, node):
+        self.generic_visit(node)
+        if node.orelse and not (len(node.orelse) == 1 and isinstance(node.orelse[0], ast.If)):
+            t = node.test
+            nt = t.operand if isinstance(t, ast.UnaryOp) and isinstance(t.op, ast.Not) else ast.UnaryOp(op=ast.Not(), operand=t)
+            return ast.If(test=nt, body=node.orelse, orelse=node.body)
+        return node
+
+
+class FlipComparisons(ast.NodeTransformer):
+    """`a < b` -> `b > a`, `a == b` -> `b == a` ... for single comparisons whose operands have no side effects"""
+    FLIP = {ast.Lt: ast.Gt, ast.Gt: ast.Lt, ast.LtE: ast.GtE, ast.GtE: ast.LtE, ast.Eq: ast.Eq, ast.NotEq: ast.NotEq}
+
+    def visit_Compare(self, node):
+        self.generic_visit(node)
+        if len(node.ops) == 1 and type(node.ops[0]) in self.FLIP and not isinstance(node.comparators[0], ast.Constant):
+            return ast.Compare(left=node.comparators[0], ops=[self.FLIP[type(node.ops[0])]()], comparators=[node.left])
+        return node
+
+
 def equivalent_variants():
     def regen(src):
         return ast.unparse(ast.parse(src)) + '\n'
@@ -339,6 +399,15 @@ def equivalent_variants():
     def invert(src):
         t = InvertContinue().visit(ast.parse(src))
         return ast.unparse(ast.fix_missing_locations(t)) + '\n'
-    return [('regenerate every module from its AST (reformat, comments dropped)', regen),
+    def swap(src):
+        t = SwapBranches().visit(ast.parse(src))
+        return ast.unparse(ast.fix_missing_locations(t)) + '\n'
+
+    def flip(src):
+        t = FlipComparisons().visit(ast.parse(src))
+        return ast.unparse(ast.fix_missing_locations(t)) + '\n'
+    return [('`if A: X else: Y` -> `if not A: Y else: X` everywhere', swap),
+            ('flip the operands of every comparison (a < b -> b > a)', flip),
+            ('regenerate every module from its AST (reformat, comments dropped)', regen),
             ('rename every local variable of every function', rename),
             ('`if C: continue; rest` -> `if not C: rest` in every loop', invert)]
